@@ -534,3 +534,207 @@ def _re_full(pat, text, raw=False):
 
 
 TARGETS['T13v'] = {'file': 'sr/value_types.py', 'build': build_T13v}
+
+
+# ======================================================================================================
+# T13sa: how the constructors treat their ARGUMENTS (round 2): which of the three TCOORD arguments wins and that an
+# empty one is refused, the frame / segment number arguments of IMAGE (scalar vs sequence, empty refused), the channel
+# pairs of WAVEFORM, the type guard of NUM, the list-or-scalar branch of the IMAGE accessors, the read order of
+# TcoordContentItem.value, the default values of every optional parameter, the two ContinuityOfContent strings
+# ======================================================================================================
+
+def _replace_stmt(stmts, pred, new):
+    """copy of `stmts` (recursively through if-bodies) with every statement satisfying `pred` replaced by `new(stmt)`
+    (a list of statements); returns (statements, number of replacements)"""
+    out, n = [], 0
+    for st in stmts:
+        if pred(st):
+            out.extend(new(st))
+            n += 1
+        elif isinstance(st, ast.If):
+            st2 = ast.parse(ast.unparse(st)).body[0]
+            st2.body, a = _replace_stmt(st.body, pred, new)
+            st2.orelse, b = _replace_stmt(st.orelse, pred, new)
+            n += a + b
+            out.append(st2)
+        else:
+            out.append(st)
+    return out, n
+
+
+def _writes(st, owner=None):
+    """keyword written by `self.Keyword = …` / `item.Keyword = …`, else None"""
+    if isinstance(st, (ast.Assign, ast.AnnAssign)):
+        t = st.targets[0] if isinstance(st, ast.Assign) else st.target
+        if isinstance(t, ast.Attribute) and isinstance(t.value, ast.Name) and _kw(t.attr) and (owner is None or t.value.id == owner):
+            return t.attr
+    return None
+
+
+def build_T13sa(tree):
+    out, shas = [], []
+
+    # ---- TcoordContentItem.__init__: the if / elif / else chain over the three arguments
+    fn = find_func(tree, 'TcoordContentItem.__init__')
+    chain = _if_with(fn, 'referenced_sample_positionsisnotNone')
+    shas.append(span_sha([chain]))
+    order = []
+
+    def branch_ret(st):
+        order.append(_writes(st, 'self'))
+        return [_ret(str(len(order)))]
+    stmts, n = _replace_stmt([chain], lambda s: _writes(s, 'self') is not None, branch_ret)
+    if n != 3 or len(set(order)) != 3:
+        raise Unsupported('TcoordContentItem.__init__: three branches writing three different attributes expected')
+    tbl = {}
+    args = []
+    for kw in order:
+        cand = [a.arg for a in fn.args.args if a.arg.replace('_', '').lower().rstrip('s') == ('referenced' + kw[len('Referenced'):]).lower().rstrip('s')]
+        if len(cand) != 1:
+            raise Unsupported(f'TcoordContentItem.__init__: no parameter for {kw}')
+        args.append(cand[0])
+    for i, a in enumerate(args, 1):
+        tbl[f'{a}isnotNone'] = f'has_{i}'
+        tbl[f'len({a})'] = f'n_{i}'
+    params = []
+    for i in (1, 2, 3):
+        params += [(f'has_{i}', 'bool'), (f'n_{i}', 'int')]
+    out.append(translate_block(_rewrite(stmts, tbl), 'tcoordArgCheck', params, {},
+                               doc='`TcoordContentItem.__init__`: which of the three time-point arguments is written (1, 2, 3 in '
+                                   'source order; has_i = argument i is not None, n_i = its length); an empty one and none at all are refused'))
+    out.append(lean_table('tcoordBranchKeywords', 'List String', [_s(k) for k in order],
+                          doc='`TcoordContentItem.__init__`: the attribute written by branch 1, 2, 3'))
+    out.append(lean_table('tcoordBranchArgs', 'List String', [_s(k) for k in args],
+                          doc='`TcoordContentItem.__init__`: the parameter tested by branch 1, 2, 3'))
+
+    # ---- TcoordContentItem.value: nested try / except AttributeError
+    fn = find_func(tree, 'TcoordContentItem.value')
+    body = strip_doc(fn.body)
+    shas.append(span_sha(body))
+    reads = []
+    cur = body
+    while True:
+        tr = [s for s in cur if isinstance(s, ast.Try)]
+        if len(tr) == 1:
+            t = tr[0]
+            if len(t.body) != 1 or len(t.handlers) != 1 or _norm(t.handlers[0].type) != 'AttributeError':
+                raise Unsupported('TcoordContentItem.value: try: value = self.X except AttributeError: … expected')
+            m = _re_full(r'value=self\.(\w+)', _norm(t.body[0]))
+            if not m:
+                raise Unsupported('TcoordContentItem.value: value = self.<Keyword> expected in try')
+            reads.append(m)
+            cur = t.handlers[0].body
+        else:
+            m = [_re_full(r'value=self\.(\w+)', _norm(s)) for s in cur if isinstance(s, ast.Assign)]
+            m = [x for x in m if x]
+            if len(m) != 1:
+                raise Unsupported('TcoordContentItem.value: innermost fall-back value = self.<Keyword> expected')
+            reads.append(m[0])
+            break
+    out.append(lean_table('tcoordReadOrder', 'List String', [_s(k) for k in reads],
+                          doc='`TcoordContentItem.value`: the attributes in the order they are tried'))
+
+    # ---- ImageContentItem.__init__: frame / segment numbers
+    fn = find_func(tree, 'ImageContentItem.__init__')
+    for arg, kw, lean in (('referenced_frame_numbers', 'ReferencedFrameNumber', 'imageFramesCheck'),
+                          ('referenced_segment_numbers', 'ReferencedSegmentNumber', 'imageSegmentsCheck')):
+        g = _if_with(fn, f'{arg}isnotNone')
+        shas.append(span_sha([g]))
+        if g.orelse:
+            raise Unsupported(f'ImageContentItem.__init__: else branch on {arg}')
+        stmts, n = _replace_stmt([g], lambda s: _writes(s, 'item') == kw and _norm(s.value) == arg, lambda s: [_ret('1')])
+        if n != 1:
+            raise Unsupported(f'ImageContentItem.__init__: item.{kw} = {arg} expected exactly once')
+        stmts, n = _replace_stmt(stmts, lambda s: _norm(s) == f'{arg}=list({arg})', lambda s: [])
+        if n != 1:
+            raise Unsupported(f'ImageContentItem.__init__: {arg} = list({arg}) expected exactly once')
+        tbl = {f'{arg}isnotNone': 'given', f'np.ndim({arg})': 'n_axes', f'len({arg})': 'n'}
+        out.append(translate_block(_rewrite(stmts, tbl) + [_ret('0')], lean, [('given', 'bool'), ('n_axes', 'int'), ('n', 'int')], {},
+                                   doc=f'`ImageContentItem.__init__`: 1 = {kw} written (a sequence, n_axes > 0, as a list; a scalar as it '
+                                       'is), 0 = not written; an empty sequence is refused'))
+
+    # ---- WaveformContentItem.__init__: channels
+    fn = find_func(tree, 'WaveformContentItem.__init__')
+    g = _if_with(fn, 'referenced_waveform_channelsisnotNone')
+    shas.append(span_sha([g]))
+    flat = 'item.ReferencedWaveformChannels=[iforiteminreferenced_waveform_channelsforiinitem]'
+    stmts, n = _replace_stmt([g], lambda s: _norm(s) == flat, lambda s: [_ret('1')])
+    if n != 1 or g.orelse:
+        raise Unsupported('WaveformContentItem.__init__: the flattening of the channel pairs changed')
+    tbl = {'referenced_waveform_channelsisnotNone': 'given', 'len(referenced_waveform_channels)': 'n',
+           'any((len(pair)!=2forpairinreferenced_waveform_channels))': 'some_not_pair'}
+    out.append(translate_block(_rewrite(stmts, tbl) + [_ret('0')], 'waveformChannelsCheck',
+                               [('given', 'bool'), ('n', 'int'), ('some_not_pair', 'bool')], {},
+                               doc='`WaveformContentItem.__init__`: 1 = the flattened pairs are written, 0 = nothing; an empty '
+                                   'list and items that are not pairs are refused'))
+
+    # ---- NumContentItem.__init__: type guard
+    fn = find_func(tree, 'NumContentItem.__init__')
+    g = [s for s in fn.body if isinstance(s, ast.If) and 'isinstance(value,' in _norm(s.test) and 'TypeError' in _norm(s)]
+    if len(g) != 1:
+        raise Unsupported('NumContentItem.__init__: type guard of value not found')
+    shas.append(span_sha(g))
+    call = [c for c in ast.walk(g[0].test) if isinstance(c, ast.Call) and _norm(c.func) == 'isinstance']
+    if len(call) != 1 or not isinstance(call[0].args[1], ast.Tuple) or not all(isinstance(e, ast.Name) for e in call[0].args[1].elts):
+        raise Unsupported('NumContentItem.__init__: isinstance(value, (<types>)) expected')
+    out.append(lean_table('numAcceptedTypes', 'List String', [_s(e.id) for e in call[0].args[1].elts],
+                          doc='`NumContentItem.__init__`: the types `value` may be an instance of'))
+    out.append(translate_block(_rewrite(g, {_norm(call[0]): 'is_accepted_type'}) + [_ret('True')], 'numTypeGuard',
+                               [('is_accepted_type', 'bool')], {}, doc='`NumContentItem.__init__`: TypeError unless value is an instance of the accepted types'))
+    pos = [fn.body.index(g[0]), [i for i, s in enumerate(fn.body) if 'NumericValue=DS(value,auto_format=True)' in _norm(s)]]
+    if len(pos[1]) != 1 or pos[1][0] < pos[0]:
+        raise Unsupported('NumContentItem.__init__: NumericValue = DS(value, auto_format=True) no longer follows the type guard')
+
+    # ---- the list-or-scalar branch of the two IMAGE accessors
+    for prop, kw, lean in (('referenced_frame_numbers', 'ReferencedFrameNumber', 'imageFramesRead'),
+                           ('referenced_segment_numbers', 'ReferencedSegmentNumber', 'imageSegmentsRead')):
+        fn = find_func(tree, 'ImageContentItem.' + prop)
+        body = strip_doc(fn.body)
+        shas.append(span_sha(body))
+        shapes = {'returnNone': '0', 'return[int(val)]': '1', 'return[int(v)forvinval]': '2'}
+        stmts, n = _replace_stmt(body, lambda s: isinstance(s, ast.Return) and _norm(s) in shapes, lambda s: [_ret(shapes[_norm(s)])])
+        stmts = [s for s in stmts if not (isinstance(s, ast.Assign) and _norm(s) == f'val=self.ReferencedSOPSequence[0].{kw}')]
+        if n != 3 or len(stmts) != len(body) - 1:
+            raise Unsupported(f'ImageContentItem.{prop}: return None / [int(val)] / [int(v) for v in val] and val = …[0].{kw} expected')
+        tbl = {f"hasattr(self.ReferencedSOPSequence[0],'{kw}')": 'present', 'isinstance(val,(MultiValue,list))': 'is_list'}
+        out.append(translate_block(_rewrite(stmts, tbl), lean, [('present', 'bool'), ('is_list', 'bool')], {},
+                                   doc=f'`ImageContentItem.{prop}`: 0 = None, 1 = the bare value wrapped in a list, 2 = the list, item by item'))
+
+    # ---- defaults of every optional parameter of the constructors and of the parsing entry points
+    rows = []
+    for node in tree.body:
+        if not isinstance(node, ast.ClassDef) or not (node.name.endswith('ContentItem') or node.name == 'ContentSequence'):
+            continue
+        for f in node.body:
+            if isinstance(f, ast.FunctionDef) and f.name in ('__init__', 'from_dataset', 'from_sequence'):
+                a = f.args
+                names = [x.arg for x in a.args]
+                for nm, dv in zip(names[len(names) - len(a.defaults):], a.defaults):
+                    rows.append(f'({_s(node.name + "." + f.name)}, {_s(nm)}, {_s(ast.unparse(dv))})')
+                if a.kwonlyargs or a.vararg or a.kwarg:
+                    raise Unsupported(f'{node.name}.{f.name}: keyword-only / variadic parameters')
+    shas.append(hashlib.sha256(';'.join(rows).encode()).hexdigest())
+    out.append(lean_table('srDefaults', 'List (String × String × String)', rows,
+                          doc='(class.method, parameter, default value as written in the source) for every optional parameter'))
+
+    # ---- ContainerContentItem.__init__: the two ContinuityOfContent strings
+    fn = find_func(tree, 'ContainerContentItem.__init__')
+    g = _if_with(fn, 'is_content_continuous')
+    if _norm(g.test) != 'is_content_continuous' or len(g.body) != 1 or len(g.orelse) != 1:
+        raise Unsupported('ContainerContentItem.__init__: if is_content_continuous: … else: … expected')
+    vals = []
+    for st in (g.body[0], g.orelse[0]):
+        if _writes(st, 'self') != 'ContinuityOfContent' or not isinstance(st.value, ast.Constant) or not isinstance(st.value.value, str):
+            raise Unsupported('ContainerContentItem.__init__: self.ContinuityOfContent = <string> expected in both branches')
+        vals.append(st.value.value)
+    shas.append(span_sha([g]))
+    out.append(lean_table('containerContinuity', 'List (Bool × String)', [f'(true, {_s(vals[0])})', f'(false, {_s(vals[1])})'],
+                          doc='`ContainerContentItem.__init__`: ContinuityOfContent for is_content_continuous true / false'))
+    mr = [s for s in ast.walk(fn) if isinstance(s, ast.Assign) and _norm(s.targets[0]) == 'item.MappingResource']
+    if len(mr) != 1 or not isinstance(mr[0].value, ast.Constant):
+        raise Unsupported('ContainerContentItem.__init__: item.MappingResource = <string> expected')
+    out.append(f'/-- `ContainerContentItem.__init__`: the mapping resource written with a template identifier -/\ndef containerMappingResource : String := {_s(mr[0].value.value)}')
+    return '\n\n'.join(out), hashlib.sha256(''.join(shas).encode()).hexdigest()
+
+
+TARGETS['T13sa'] = {'file': 'sr/value_types.py', 'build': build_T13sa}
